@@ -216,6 +216,12 @@ func raceCommand(args []string) bool {
 	for _, b := range basePool {
 		if u, err := url.Parse(b); err == nil {
 			v, _ := url.Parse(b)
+			// every other base has had its parameter list materialised by a read-only use BEFORE it is shared (the lazy
+			// creation itself is a documented write: C14_mutators); from then on the list is part of the read-only value
+			if len(bases)%2 == 0 {
+				u.SearchParams().Has("x")
+				v.SearchParams().Has("x")
+			}
 			basesSeq = append(basesSeq, u)
 			bases = append(bases, v)
 		}
@@ -236,17 +242,46 @@ func raceCommand(args []string) bool {
 		case 5:
 			b := bases[j.base]
 			return b.Href(false) + b.Protocol() + b.Username() + b.Password() + b.Host() + b.Hostname() + b.Port() + b.Pathname() + b.Search() + b.Hash() + b.Query() + b.Fragment() + fmt.Sprint(b.IsIPv4(), b.IsIPv6(), b.DecodedPort(), b.OpaquePath(), b.IsSpecialScheme(), len(b.ValidationErrors()))
-		default:
+		case 6:
 			return resStr(predefinedProfiles[j.prof].Parser.ParseRef(bases[j.base].Href(false), j.in))
+		default:
+			// the shared value is only READ (used as a base, or cloned); the result belongs to this goroutine, which then
+			// mutates it through every kind of writer — nothing of that may reach the shared value (aliasing would be a
+			// data race with the readers of kind 5 and changes what they return)
+			var u *url.Url
+			var err error
+			if j.kind == 7 {
+				u, err = bases[j.base].Parse(j.in)
+			} else {
+				u = bases[j.base].Clone()
+			}
+			if err != nil || u == nil {
+				return "ERR"
+			}
+			u.SetHash("")
+			u.SetSearch("")
+			u.SetUsername("w")
+			u.SetPort("81")
+			u.SetPathname("/written/by/the/owner")
+			u.SearchParams().Append("w", "1")
+			u.SearchParams().Sort()
+			u.SetHash("w")
+			if pu, perr := predefinedProfiles[j.prof].Parser.Parse(u.Href(false)); perr == nil {
+				return u.Href(false) + " " + pu.Href(false)
+			}
+			return u.Href(false)
 		}
 	}
 	jobs := make([]*raceJob, n)
 	// expected results are computed on PRIVATE copies of everything first? No: sequentially on the same shared values — a
 	// sequential run cannot race, and it must not change what later concurrent runs see (that is part of the property).
 	for i := range jobs {
-		j := &raceJob{kind: r.N(7), in: genInput(r), base: r.N(len(bases)), prof: r.N(len(predefinedProfiles))}
-		if j.kind == 1 || j.kind == 2 || j.kind == 6 {
+		j := &raceJob{kind: r.N(9), in: genInput(r), base: r.N(len(bases)), prof: r.N(len(predefinedProfiles))}
+		if j.kind == 1 || j.kind == 2 || j.kind == 6 || j.kind == 7 {
 			j.in = genRef(r, "")
+			if j.kind == 7 && r.P(50) {
+				j.in = r.Pick([]string{"#a", "", "?q", "#", "x", "/", "//h2/p"})
+			}
 		}
 		j.want = run(j, basesSeq)
 		jobs[i] = j
